@@ -23,12 +23,14 @@
     NewKeyFromPrivate` builds (`keyFromEC`, `keyFromEd`) marshals, the bytes unmarshal, kty / alg /
     curve are preserved, `ecCoords` of the result are the numbers put in, and x and y are stored
     at exactly `curveSize` bytes — for EVERY coordinate value, 0 included: they are `FillBytes` of
-    the coordinates, byte for byte what the in-memory key already holds (`C14.keyFromEC_fullwidth`
-    in Deep/Keys.lean); OKP x and d come back unchanged.  No hypothesis beyond `keyFrom… = .ok k`
-    (coordinate bounds follow from it).  `C14.ec2_key_wire_publicKey`: `PublicKey()` succeeds on
+    the coordinates, i.e. the in-memory parameter (`X.Bytes()`, or `curveSize` zero octets for 0)
+    left-padded by `MarshalCBOR` (`C14.keyFromEC_fullwidth_wire` in Deep/Keys.lean; the in-memory
+    parameter itself is NOT always at full width, `C14.keyFromEC_memory_not_fullwidth`, but it is
+    never empty, `C14.keyFromEC_coord_nonempty`); OKP x and d come back unchanged.  No hypothesis
+    beyond `keyFrom… = .ok k` (coordinate bounds follow from it).  `C14.ec2_key_wire_publicKey`: `PublicKey()` succeeds on
     the key before and after the wire; `C14.ec2_zero_coordinate_roundtrip`: the P-256 key with
-    x = 0 is accepted, emits 32 zero octets for x, is re-parsed, and converts back without
-    `ErrEC2NoPub` (the defect of `big.Int.Bytes()` coordinates, repaired).
+    x = 0 is accepted, holds and emits 32 zero octets for x, is re-parsed, and converts back
+    without `ErrEC2NoPub` (the defect of an EMPTY `big.Int.Bytes()` coordinate, repaired).
   * `C15.reencode_idempotent` — if `UnmarshalCBOR(b) = k` and every parameter VALUE of `k` is a
     `KVal`, then `MarshalCBOR(k) = b'` succeeds, `UnmarshalCBOR(b') = k2` succeeds, and
     `MarshalCBOR(k2) = b'` again: decode → encode → decode → encode is a fixpoint of canonical
@@ -1648,7 +1650,9 @@ theorem ecParams_disjoint (c : Int) (x y : Nat) (d : Option Nat) (i : Int) (hi :
 /-- every key `NewKeyEC2` returns lies in the flat data model -/
 theorem keyFromEC_flat (bits x y : Nat) (d : Option Nat) (k : Key)
     (hk : keyFromEC bits x y d = .ok k) : KeyFlat k ∧ KeySize k ∧ ParamsDisjoint k := by
-  obtain ⟨hc, hkeq, hv, _, _⟩ := keyFromEC_inv bits x y d k hk
+  obtain ⟨hc, hkeq, hv, hxlt, hylt⟩ := keyFromEC_inv bits x y d k hk
+  have hlx := (ec2Coordinate_length_le_iff _ _).mpr hxlt
+  have hly := (ec2Coordinate_length_le_iff _ _).mpr hylt
   have hl := ecParams_lookups (curveOfBits bits) x y d
   have hpar : k.params = ecParams (curveOfBits bits) x y d := by rw [hkeq]
   have h2 : k.kty = 2 := by rw [hkeq]
@@ -1664,10 +1668,10 @@ theorem keyFromEC_flat (bits x y : Nat) (d : Option Nat) (k : Key)
     rcases hc with h | h | h <;> rw [h] <;> decide
   have hpm : KeyMap (ecParams (curveOfBits bits) x y d) := by
     have e1 : KeyLabel (lbl (-1)) ∧ KVal (.crv (curveOfBits bits)) := ⟨keyLabel_lbl _ (by decide), hcr⟩
-    have e2 : KeyLabel (lbl (-2)) ∧ KVal (.bytes (fillBytes (curveSize (curveOfBits bits)) x)) :=
-      ⟨keyLabel_lbl _ (by decide), by simp only [KVal, fillBytes_length]; omega⟩
-    have e3 : KeyLabel (lbl (-3)) ∧ KVal (.bytes (fillBytes (curveSize (curveOfBits bits)) y)) :=
-      ⟨keyLabel_lbl _ (by decide), by simp only [KVal, fillBytes_length]; omega⟩
+    have e2 : KeyLabel (lbl (-2)) ∧ KVal (.bytes (ec2Coordinate x (curveSize (curveOfBits bits)))) :=
+      ⟨keyLabel_lbl _ (by decide), by simp only [KVal]; omega⟩
+    have e3 : KeyLabel (lbl (-3)) ∧ KVal (.bytes (ec2Coordinate y (curveSize (curveOfBits bits)))) :=
+      ⟨keyLabel_lbl _ (by decide), by simp only [KVal]; omega⟩
     intro e he
     cases d with
     | none =>
@@ -1711,7 +1715,8 @@ theorem marshal_of_marshalMap {k : Key} (hk : KeyFlat k) {m : GoMap} (hm : k.mar
     `MarshalCBOR` / `UnmarshalCBOR`: same kty, alg and curve, the coordinates read back are the
     numbers put in, and x and y are stored at exactly the curve's byte size — for EVERY key the
     constructor accepts, a zero coordinate included (no `0 < x`, `0 < y` hypotheses): the re-parsed
-    x and y are `FillBytes` of the coordinates, byte for byte those of the in-memory key. -/
+    x and y are `FillBytes` of the coordinates — those of the in-memory key (`X.Bytes()`, or
+    `curveSize` zero octets for 0) left-padded to the curve size by `MarshalCBOR`. -/
 theorem ec2_key_wire_roundtrip (bits x y : Nat) (d : Option Nat) (k : Key)
     (hk : keyFromEC bits x y d = .ok k) :
     ∃ b k', k.marshal = .ok b ∧ Key.unmarshal b = .ok k' ∧
@@ -1723,7 +1728,8 @@ theorem ec2_key_wire_roundtrip (bits x y : Nat) (d : Option Nat) (k : Key)
       k'.pbytes (-4) = (d.map natBytes).getD [] ∧
       (k'.pbytes (-2)).length = curveSize (curveOfBits bits) ∧
       (k'.pbytes (-3)).length = curveSize (curveOfBits bits) ∧
-      k'.pbytes (-2) = k.pbytes (-2) ∧ k'.pbytes (-3) = k.pbytes (-3) ∧
+      k'.pbytes (-2) = leftPad (curveSize (curveOfBits bits)) (k.pbytes (-2)) ∧
+      k'.pbytes (-3) = leftPad (curveSize (curveOfBits bits)) (k.pbytes (-3)) ∧
       k'.validate .none = none ∧
       (∀ op, k'.validate op = k.validate op) := by
   obtain ⟨hflat, hsize, hdis⟩ := keyFromEC_flat bits x y d k hk
@@ -1737,10 +1743,10 @@ theorem ec2_key_wire_roundtrip (bits x y : Nat) (d : Option Nat) (k : Key)
     key_marshal_unmarshal k hflat hsize hdis hv _ hb
   have q2 : k'.pbytes (-2) = fillBytes (curveSize (curveOfBits bits)) x := by
     rw [hpb (-2) (by decide) (by decide), wirePbytes, if_pos ⟨h2, Or.inl rfl⟩, hpx, hcrv,
-      leftPad_fillBytes]
+      leftPad_ec2Coordinate _ _ hxlt]
   have q3 : k'.pbytes (-3) = fillBytes (curveSize (curveOfBits bits)) y := by
     rw [hpb (-3) (by decide) (by decide), wirePbytes, if_pos ⟨h2, Or.inr rfl⟩, hpy, hcrv,
-      leftPad_fillBytes]
+      leftPad_ec2Coordinate _ _ hylt]
   have q4 : k'.pbytes (-4) = (d.map natBytes).getD [] := by
     rw [hpb (-4) (by decide) (by decide), wirePbytes, if_neg (fun h => by have := h.2; omega)]
     cases d with
@@ -1750,7 +1756,8 @@ theorem ec2_key_wire_roundtrip (bits x y : Nat) (d : Option Nat) (k : Key)
       simp [ecParams, lookup_cons, keyEq_lbl_lbl, lookup_nil, optBytes]
   refine ⟨_, k', hb, hu, by rw [e1, h2], e3, by rw [e2, hkeq], by rw [e4, hkeq], by rw [e5, hkeq],
     by rw [hcr (Or.inr h2), hcrv], ?_, q2, q3, q4, by rw [q2, fillBytes_length],
-    by rw [q3, fillBytes_length], by rw [q2, hpx], by rw [q3, hpy], hv', ?_⟩
+    by rw [q3, fillBytes_length], by rw [q2, hpx, leftPad_ec2Coordinate _ _ hxlt],
+    by rw [q3, hpy, leftPad_ec2Coordinate _ _ hylt], hv', ?_⟩
   · unfold Key.ecCoords
     rw [q2, q3, q4, os2ip_fillBytes _ _ hxlt, os2ip_fillBytes _ _ hylt]
     cases d with
@@ -1793,14 +1800,15 @@ theorem ec2_zero_coordinate_roundtrip :
       k.publicKey = none ∧
       k'.validate .verify = none ∧ k'.publicKey = none ∧ k'.publicKey ≠ some .ec2NoPub := by
   have hk := keyFromEC_ok 256 0 1 none (by decide) (by decide) (by decide) (by intro dv h; cases h)
-  obtain ⟨b, k', hb, hu, _, _, _, _, _, _, hco, q2, _, _, _, l3, q2k, _, _, _⟩ :=
+  obtain ⟨b, k', hb, hu, _, _, _, _, _, _, hco, q2, _, _, _, l3, _, _, _, _⟩ :=
     ec2_key_wire_roundtrip 256 0 1 none _ hk
+  obtain ⟨_, hx0, _, _⟩ := keyFromEC_pbytes 256 0 1 none _ hk
   obtain ⟨p0, pv, p1⟩ := ec2_key_wire_publicKey 256 0 1 none _ hk b hb k' hu
   have e32 : curveSize (curveOfBits 256) = 32 := by decide
   rw [e32] at q2 l3
   rw [fillBytes_zero] at q2
   refine ⟨_, b, k', hk, ?_, hb, hu, q2, l3, hco, p0, pv, p1, ?_⟩
-  · rw [← q2k, q2]
+  · rw [hx0, e32, ec2Coordinate_zero]
   · rw [p1]; intro h; cases h
 
 /-- the parameter list `NewKeyOKP` builds for Ed25519 -/
